@@ -244,7 +244,7 @@ class CircuitSerializer(serializer.Serializer):
         for moment in circuit:
             # Moment equality ignores moment tags, so the tags are part of the key.
             moment_key = (moment, moment.tags)
-            if (moment_index := raw_constants.get(moment_key, None)) is not None:
+            if (moment_index := _constant_index(raw_constants, moment_key)) is not None:
                 # Moment is already in the constants table
                 msg.moment_indices.append(moment_index)
                 continue
@@ -267,7 +267,7 @@ class CircuitSerializer(serializer.Serializer):
                     for control in op.classical_controls:
                         arg_func_langs.condition_to_proto(control, out=op_pb.conditioned_on.add())
                 else:
-                    if (op_index := raw_constants.get(op, None)) is not None:
+                    if (op_index := _constant_index(raw_constants, op)) is not None:
                         # Operation is already in the constants table
                         moment_proto.operation_indices.append(op_index)
                     else:
@@ -286,7 +286,7 @@ class CircuitSerializer(serializer.Serializer):
                             )
                         constants.append(v2.program_pb2.Constant(operation_value=op_pb))
                         op_index = len(constants) - 1
-                        raw_constants[op] = op_index
+                        _set_constant_index(raw_constants, op, op_index)
                         moment_proto.operation_indices.append(op_index)
 
             for tag in moment.tags:
@@ -297,7 +297,7 @@ class CircuitSerializer(serializer.Serializer):
             # Add this moment to the constants table
             constants.append(v2.program_pb2.Constant(moment_value=moment_proto))
             moment_index = len(constants) - 1
-            raw_constants[moment_key] = moment_index
+            _set_constant_index(raw_constants, moment_key, moment_index)
             msg.moment_indices.append(moment_index)
 
         # Serialize any circuit tags
@@ -1168,6 +1168,23 @@ class CircuitSerializer(serializer.Serializer):
         else:
             warnings.warn(f'Unknown tag {msg=}, ignoring')
             return None
+
+
+def _constant_index(raw_constants: dict[Any, int], value: Any) -> int | None:
+    """Index of `value` in the constants table, None if it is absent or not hashable."""
+    try:
+        return raw_constants.get(value, None)
+    except TypeError:
+        # For example an InternalGate with a list or numpy array argument.
+        return None
+
+
+def _set_constant_index(raw_constants: dict[Any, int], value: Any, index: int) -> None:
+    """Records the index of `value` in the constants table, unless it is not hashable."""
+    try:
+        raw_constants[value] = index
+    except TypeError:
+        pass
 
 
 @functools.cache
